@@ -39,15 +39,13 @@ func main() {
 				fmt.Printf("   %-7s [%s] %s\n", ri.ID, ri.Engine, ri.Title)
 			}
 		}
-	case "selftest":
-		os.Exit(cmdSelftest(os.Args[2:]))
 	default:
 		usage()
 	}
 }
 
 func usage() {
-	fmt.Fprintln(os.Stderr, "usage: rcvet check -p <property> [-tier quick|thorough] [-repo dir] [-verif dir] | rcvet list | rcvet selftest")
+	fmt.Fprintln(os.Stderr, "usage: rcvet check -p <property> [-tier quick|thorough] [-repo dir] [-verif dir] | rcvet list")
 	os.Exit(2)
 }
 
@@ -94,7 +92,7 @@ func cmdCheck(args []string) (code int) {
 
 	configs := []string{""}
 	if *tier == "thorough" {
-		configs = append(configs, "poll_opt")
+		configs = append(configs, "poll_opt", "GOOS=darwin", "GOOS=darwin,poll_opt")
 	}
 	res := &runResult{Property: *prop, Tier: *tier, Start: start, Extra: map[string]interface{}{}}
 	funcs := map[string]bool{}
